@@ -362,6 +362,15 @@ pub fn suite(out: &mut Out, seed: u64, thorough: bool) {
 	for round in 0..rounds {
 		for &cap in &caps {
 			if is_compat() && cap == 0 {
+				// on an empty window `push`, `newest`, `oldest` and indexing are undefined behaviour in the unchecked build;
+				// the accessors that stay checked must still agree with the default build
+				let prog: Vec<String> = ["new 0 7", "state", "len", "isempty", "get 0", "get 1", "get 2", "iter 0", "iter 1", "iterrev 0", "iterrev 1", "serde", "state"]
+					.iter()
+					.map(|s| s.to_string())
+					.collect();
+				out.count("programs");
+				run_program(out, id, &prog);
+				id += 1;
 				continue;
 			}
 			let mut r = rng.fork((round * 1000 + cap) as u64);
@@ -374,10 +383,88 @@ pub fn suite(out: &mut Out, seed: u64, thorough: bool) {
 			id += 1;
 		}
 	}
+	drop_accounting(out, id);
+	id += 1;
 	if is_compat() {
 		return;
 	}
 	let prog = gen_de_program(&mut rng);
 	out.count("programs");
 	run_program(out, id, &prog);
+}
+
+/// element types with a destructor: every value handed to a window is destroyed exactly once, and a value returned by
+/// `push` / `Past::next` is still alive when the caller receives it (C19: the unchecked build moves values with raw
+/// pointer reads/writes)
+fn drop_accounting(out: &mut Out, id: u64) {
+	use std::cell::RefCell;
+	use std::rc::Rc;
+	use yata::core::Method;
+	use yata::methods::Past;
+	#[derive(Debug)]
+	struct Tracked {
+		id: usize,
+		log: Rc<RefCell<Vec<u32>>>,
+	}
+	impl Tracked {
+		fn fresh(log: &Rc<RefCell<Vec<u32>>>) -> Self {
+			let id = {
+				let mut l = log.borrow_mut();
+				l.push(0);
+				l.len() - 1
+			};
+			Tracked { id, log: log.clone() }
+		}
+	}
+	impl Clone for Tracked {
+		fn clone(&self) -> Self {
+			Tracked::fresh(&self.log)
+		}
+	}
+	impl Drop for Tracked {
+		fn drop(&mut self) {
+			self.log.borrow_mut()[self.id] += 1;
+		}
+	}
+	out.line(&format!("C {} flags window_drop", id));
+	for cap in [1usize, 2, 3, 7] {
+		let log = Rc::new(RefCell::new(Vec::new()));
+		let mut alive_when_returned = true;
+		let r = guard(|| {
+			let seed = Tracked::fresh(&log);
+			let mut w = yata::core::Window::new(cap as yata::core::PeriodType, seed);
+			for _ in 0..(3 * cap + 2) {
+				let old = w.push(Tracked::fresh(&log));
+				if log.borrow()[old.id] != 0 {
+					alive_when_returned = false;
+				}
+				drop(old);
+			}
+			drop(w);
+		});
+		let counts = log.borrow().clone();
+		let once = counts.iter().all(|c| *c == 1);
+		out.line(&format!("F window_drop push_cap{} ; ok=i{} returned_alive={} destroyed_once={} panicked={} counts={:?}", cap,
+			(r.is_some() && alive_when_returned && once) as u8, alive_when_returned, once, r.is_none(), &counts[..counts.len().min(12)]));
+		let log2 = Rc::new(RefCell::new(Vec::new()));
+		let mut alive2 = true;
+		let r2 = guard(|| {
+			let seed = Tracked::fresh(&log2);
+			if let Ok(mut p) = Past::<Tracked>::new(cap as yata::core::PeriodType, &seed) {
+				for _ in 0..(2 * cap + 3) {
+					let x = Tracked::fresh(&log2);
+					let old = p.next(&x);
+					if log2.borrow()[old.id] != 0 {
+						alive2 = false;
+					}
+				}
+			}
+			drop(seed);
+		});
+		let counts2 = log2.borrow().clone();
+		let once2 = counts2.iter().all(|c| *c == 1);
+		out.line(&format!("F window_drop past_len{} ; ok=i{} returned_alive={} destroyed_once={} panicked={}", cap,
+			(r2.is_some() && alive2 && once2) as u8, alive2, once2, r2.is_none()));
+	}
+	out.line("E");
 }
